@@ -455,8 +455,11 @@ def main(mod: Any) -> None:
     }
     if harness_errors:
         ev["coverage"]["harness_errors"] = harness_errors[:5]
-    evdir = VERIF / "evidence"
-    evdir.mkdir(exist_ok=True)
+    # evidence is only ever written for the real tree; experiments on scratch worktrees
+    # (VERIF_REPO=...) and scaled-down runs go to an ignored directory
+    real = str(REPO) == "/repo" and float(os.environ.get("VERIF_SCALE", "1")) == 1.0
+    evdir = VERIF / "evidence" if real else VERIF / "build" / "evidence-experiments"
+    evdir.mkdir(parents=True, exist_ok=True)
     (evdir / f"{pid}.json").write_text(
         json.dumps(ev, indent=1, default=repr, ensure_ascii=True) + "\n"
     )
